@@ -21,6 +21,13 @@ def run(tier: str) -> int:
     types = ["dance-single", "dance-threepanel", "dance-solo", "kb7-single", "dance-double"]
     scns = [dict(s, id=f"m{i}", variant=i, second_chart=types[i % 5] if i % 3 == 0 else None,
                  title=["Song", "So ng", "a b"][i % 3]) for i, s in enumerate(scs)]
+    # EXTENSION beyond C02's domain: files with one #STOPS entry (rejections are observations, not violations)
+    ext = []
+    for i, sc in enumerate(scns[: (300 if tier == "quick" else 3000)]):
+        if sc["objs"]:
+            ext.append(dict(sc, id=f"x{i}", ext=True, second_chart=None,
+                            stops=[{"p48": [48, 96, 192, 24][i % 4], "len": [25000, 10000][i % 2]}]))
+    scns += ext
     scns += drv.random_scenarios(800 if tier == "quick" else 12000)
     recs = pmap(drv.exec_sm, scns)
     recs += pmap(drv.exec_bundled, drv.bundled_scenarios(tier), chunk=1)
